@@ -552,8 +552,8 @@ pub fn worker_loop(prop: &dyn Property, a: &WorkerArgs) -> WorkerStats {
                     let orig_size = scenario_size(&sc);
                     let failing = Failing { sc: sc.clone(), kind: kind.clone(), sched_seed, hash_seed, exec: jd.exec, violation: v.clone() };
                     let (extra, budget) = match a.tier {
-                        Tier::Quick => (3, 300),
-                        Tier::Thorough => (8, 1500),
+                        Tier::Quick => (3, 1500),
+                        Tier::Thorough => (8, 4000),
                     };
                     let (min, _runs) = minimise(prop, failing, extra, budget);
                     let path = write_replay(&a.replay_dir, prop.id(), a.verif_seed, idx, j, &min, true, orig_size);
